@@ -7,6 +7,7 @@ non-linear queries; nlsat through SolverFor("QF_NRA") decides them in millisecon
 """
 from __future__ import annotations
 
+import math
 import itertools
 import os
 import time
@@ -77,6 +78,47 @@ def _neg(a):
     if _isc(a):
         return -Fraction(a)
     return -a
+
+
+_SPLIT_CACHE = {}
+
+
+def _split_coef(t):
+    """t = c * core with c a rational constant: (c, core); core None for a pure constant.  For a polynomial the numeric content (gcd of its
+    integer coefficients, sign of the first one) is pulled out, so that D and 3 D are recognised as the same core"""
+    if _isc(t):
+        return Fraction(t), None
+    if z3.is_rational_value(t):
+        return Fraction(t.as_fraction()), None
+    k = t.get_id()
+    hit = _SPLIT_CACHE.get(k)
+    if hit is not None:
+        return hit[1], hit[2]
+    res = (Fraction(1), t)
+    try:
+        if _ast_size(t, 600) <= 600:
+            g = z3.simplify(t, som=True)
+            terms = g.children() if (z3.is_app(g) and g.decl().kind() == z3.Z3_OP_ADD) else [g]
+            coefs = []
+            for m in terms:
+                if z3.is_rational_value(m):
+                    coefs.append(Fraction(m.as_fraction()))
+                elif z3.is_app(m) and m.decl().kind() == z3.Z3_OP_MUL and z3.is_rational_value(m.arg(0)):
+                    coefs.append(Fraction(m.arg(0).as_fraction()))
+                else:
+                    coefs.append(Fraction(1))
+            if coefs and all(c.denominator == 1 and c != 0 for c in coefs):
+                c = Fraction(math.gcd(*[abs(x.numerator) for x in coefs]))
+                if coefs[0] < 0:
+                    c = -c
+                if c != 1:
+                    res = (c, z3.simplify(g * z3.RealVal(str(1 / c)), som=True))
+                else:
+                    res = (Fraction(1), g)
+    except Exception:  # noqa
+        res = (Fraction(1), t)
+    _SPLIT_CACHE[k] = (t, res[0], res[1])
+    return res
 
 
 def _same(a, b):
@@ -421,6 +463,14 @@ class R:
         o = lift(o)
         if _same(self.d, o.d):
             return R(_add(self.n, o.n), self.d)
+        # denominators that differ by a numeric factor only (D and 3 D): keep the common polynomial factor once - without this every
+        # convex combination (1 - g) x + g y squares the denominator and the polynomials handed to the solver double in degree for nothing
+        (c1, k1), (c2, k2) = _split_coef(self.d), _split_coef(o.d)
+        if (k1 is None and k2 is None) or (k1 is not None and k2 is not None and k1.eq(k2)):
+            g = math.gcd(c1.numerator, c2.numerator) if c1.denominator == 1 and c2.denominator == 1 and c1 > 0 and c2 > 0 else 1
+            m1, m2 = c2 / g, c1 / g
+            d = _mul(c1 * m1, k1) if k1 is not None else c1 * m1
+            return R(_add(_mul(self.n, m1), _mul(o.n, m2)), d)
         return R(_add(_mul(self.n, o.d), _mul(o.n, self.d)), _mul(self.d, o.d))
 
     __radd__ = __add__
@@ -737,6 +787,132 @@ def _is_linear(f):
     return r
 
 
+_ABS_CACHE = {}   # ast id -> (ast, abstracted ast or None)
+_ABS_TABLE = {}   # canonical monomial -> z3 variable
+_ABS_FACTS = {}   # variable name -> sign fact (squares are non-negative)
+
+
+def _ast_size(f, limit):
+    n, stack, seen = 0, [f], set()
+    while stack:
+        e = stack.pop()
+        i = e.get_id()
+        if i in seen:
+            continue
+        seen.add(i)
+        n += 1
+        if n > limit:
+            return n
+        stack.extend(e.children())
+    return n
+
+
+def _abstract(f):
+    """monomial abstraction: f in sum-of-monomials form with every non-linear monomial replaced by ONE variable per distinct monomial.
+    The result is linear and is implied by f together with the (dropped) definitions of the monomial variables, so `unsat` of the abstraction
+    is `unsat` of the original.  It decides the many queries that follow from the path condition by purely linear reasoning over polynomials
+    the solver would otherwise multiply out and hand to nlsat (gamma = P/(P+Q) in [0,1] from P > 0, Q > 0)."""
+    k = f.get_id()
+    hit = _ABS_CACHE.get(k)
+    if hit is not None:
+        return hit[1]
+    out = None
+    try:
+        if _ast_size(f, 4000) <= 4000:
+            g = z3.simplify(f, som=True)
+            if _ast_size(g, 20000) <= 20000:
+                out = _abs_rw(g, {})
+    except Exception:  # noqa
+        out = None
+    _ABS_CACHE[k] = (f, out)
+    return out
+
+
+def _mono_var(factors):
+    key = "*".join(sorted(factors))
+    v = _ABS_TABLE.get(key)
+    if v is None:
+        v = z3.Real(f"mono!{len(_ABS_TABLE)}")
+        _ABS_TABLE[key] = v
+        cnt = {}
+        for x in factors:
+            cnt[x] = cnt.get(x, 0) + 1
+        if all(c % 2 == 0 for c in cnt.values()):
+            _ABS_FACTS[str(v)] = v >= 0
+    return v
+
+
+def _abs_factors(e):
+    """(constant factors, atomic factor names) of a monomial term, or None if e is not a product of constants, variables and constant powers of variables"""
+    if z3.is_rational_value(e):
+        return [e], []
+    if z3.is_const(e):
+        return [], [e.sexpr()]
+    if z3.is_app(e) and e.decl().kind() == z3.Z3_OP_POWER:
+        b, x = e.children()
+        if z3.is_const(b) and not z3.is_rational_value(b) and z3.is_rational_value(x):
+            fr = x.as_fraction()
+            if fr.denominator == 1 and 1 <= fr.numerator <= 16:
+                return [], [b.sexpr()] * int(fr.numerator)
+        return None
+    if z3.is_app(e) and e.decl().kind() == z3.Z3_OP_MUL:
+        cs, fs = [], []
+        for c in e.children():
+            r = _abs_factors(c)
+            if r is None:
+                return None
+            cs += r[0]
+            fs += r[1]
+        return cs, fs
+    if z3.is_app(e) and e.decl().kind() == z3.Z3_OP_UMINUS:
+        r = _abs_factors(e.arg(0))
+        return None if r is None else ([z3.RealVal(-1)] + r[0], r[1])
+    return None
+
+
+def _abs_rw(e, memo):
+    i = e.get_id()
+    if i in memo:
+        return memo[i]
+    r = e
+    if z3.is_app(e) and e.num_args() > 0:
+        kind = e.decl().kind()
+        ch = e.children()
+        if kind in (z3.Z3_OP_MUL, z3.Z3_OP_POWER):
+            cf = _abs_factors(e)
+            if cf is None:
+                raise ValueError("not a monomial")
+            consts, facs = cf
+            if len(facs) >= 2:
+                r = _mono_var(facs)
+                for c in consts:
+                    r = c * r
+            else:
+                r = e
+        elif kind in (z3.Z3_OP_DIV, z3.Z3_OP_IDIV, z3.Z3_OP_MOD):
+            if not z3.is_rational_value(ch[1]):
+                raise ValueError("division by a term")
+            r = e.decl()(*[_abs_rw(c, memo) for c in ch])
+        else:
+            r = e.decl()(*[_abs_rw(c, memo) for c in ch])
+    memo[i] = r
+    return r
+
+
+def _vars_of(f):
+    out, stack, seen = [], [f], set()
+    while stack:
+        e = stack.pop()
+        i = e.get_id()
+        if i in seen:
+            continue
+        seen.add(i)
+        if z3.is_const(e) and e.decl().kind() == z3.Z3_OP_UNINTERPRETED:
+            out.append(e)
+        stack.extend(e.children())
+    return out
+
+
 class Space:
     def __init__(self, timeout_ms=10000, prefix=()):
         self.timeout_ms = timeout_ms
@@ -797,6 +973,18 @@ class Space:
         r, s = self._solve("QF_NRA", self.pc + extra, timeout_ms)
         if r == z3.unknown and fallback:
             r, s = self._solve(None, self.pc + extra, timeout_ms)
+        if r == z3.unknown:
+            # last resort (sound for unsat only): monomial abstraction + linear arithmetic
+            ab = [_abstract(a) for a in self.pc + extra]
+            if all(a is not None for a in ab):
+                names = set()
+                for a in ab:
+                    names.update(str(v) for v in _vars_of(a) if str(v).startswith("mono!"))
+                facts = [_ABS_FACTS[n] for n in names if n in _ABS_FACTS]
+                r2, _ = self._solve("QF_LRA", ab + facts, 5000)
+                if r2 == z3.unsat:
+                    self.n_abs = getattr(self, "n_abs", 0) + 1
+                    r = z3.unsat
         if r == z3.unsat:
             self.n_unsat += 1
             return "unsat"
@@ -1005,9 +1193,9 @@ def jval(v):
 class Ob:
     """One proof obligation emitted at the end of a path."""
 
-    __slots__ = ("name", "formula", "cex", "info")
+    __slots__ = ("name", "formula", "cex", "info", "hunt")
 
-    def __init__(self, name, formula, cex=None, info=None):
+    def __init__(self, name, formula, cex=None, info=None, hunt=False):
         if isinstance(formula, B):
             formula = formula.z()
         elif isinstance(formula, bool):
@@ -1016,6 +1204,37 @@ class Ob:
         self.formula = formula
         self.cex = cex  # callable(model) -> json dict for replay
         self.info = info
+        # hunt: a SEARCH-ONLY obligation.  The claim is carried by other (decidable) obligations; this one states the property directly where the
+        # solver cannot decide it in general.  sat => counterexample (replayed like any other); unsat / unknown => nothing is concluded from it.
+        self.hunt = hunt
+
+
+def _record_cex(sp, st, ob, f):
+    m = sp.last_model
+    rm = robust_model(sp, z3.Not(f)) if not z3.is_false(f) or sp.pc else None
+    alts = [m] if rm is not None else []
+    if rm is not None:
+        m = rm
+    elif not z3.is_false(f) and sp.pc:
+        # no model is robust in every relation: ask for one whose OBSERVABLE difference is large (margin on the negated
+        # obligation only) - faults that need inputs of extreme scale have only such counterexamples
+        om = robust_model(sp, z3.Not(f), ob_only=True)
+        if om is not None:
+            alts, m = [m], om
+    rec = dict(ob=ob.name, choices=[list(c) for c in sp.choices], info=ob.info)
+    try:
+        rec["cex"] = ob.cex(m) if ob.cex else None
+    except Inconclusive as e:
+        rec["cex"] = None
+        rec["cex_error"] = str(e)
+    rec["alt_cex"] = []
+    for am in alts:
+        try:
+            if ob.cex:
+                rec["alt_cex"].append(ob.cex(am))
+        except Exception:  # noqa
+            pass
+    st["cex"].append(rec)
 
 
 def explore(fn, timeout_ms=10000, prefix=(), max_paths=200000, sample_every=0, budget_s=None, dump_dir=None):
@@ -1035,6 +1254,15 @@ def explore(fn, timeout_ms=10000, prefix=(), max_paths=200000, sample_every=0, b
             if obs:
                 st["paths_with_obs"] = st.get("paths_with_obs", 0) + 1
             for ob in obs:
+                if ob.hunt:
+                    st["hunts"] = st.get("hunts", 0) + 1
+                    f = z3.simplify(ob.formula)
+                    if not z3.is_true(f) and sp.check(z3.Not(f)) == "sat":
+                        st["obligations"] += 1
+                        st["nontrivial"] += 1
+                        st["by_name"].setdefault(ob.name, [0, 0])[0] += 1
+                        _record_cex(sp, st, ob, f)
+                    continue
                 st["obligations"] += 1
                 bn = st["by_name"].setdefault(ob.name, [0, 0])
                 bn[0] += 1
@@ -1072,17 +1300,7 @@ def explore(fn, timeout_ms=10000, prefix=(), max_paths=200000, sample_every=0, b
                     st["discharged"] += 1
                     bn[1] += 1
                 elif r == "sat":
-                    m = sp.last_model
-                    rm = robust_model(sp, z3.Not(f)) if not z3.is_false(f) or sp.pc else None
-                    if rm is not None:
-                        m = rm
-                    rec = dict(ob=ob.name, choices=[list(c) for c in sp.choices], info=ob.info)
-                    try:
-                        rec["cex"] = ob.cex(m) if ob.cex else None
-                    except Inconclusive as e:
-                        rec["cex"] = None
-                        rec["cex_error"] = str(e)
-                    st["cex"].append(rec)
+                    _record_cex(sp, st, ob, f)
                 else:
                     st["unknown"].append(dict(ob=ob.name, choices=[list(c) for c in sp.choices]))
                 if len(st["samples"]) < 3 and not z3.is_true(f):
@@ -1134,11 +1352,12 @@ def _margin(f, delta, neg=False):
     return z3.Not(f) if neg else f
 
 
-def robust_model(sp, negated_ob, timeout_ms=5000):
-    """a model of pc /\ not(ob) in which every order relation holds with a margin (None if none is found quickly)"""
+def robust_model(sp, negated_ob, timeout_ms=5000, ob_only=False):
+    """a model of pc /\ not(ob) in which every order relation holds with a margin (None if none is found quickly);
+    ob_only: the margin is required of the negated obligation only"""
     for delta in ("1/100", "1/10000"):
         try:
-            cs = [_margin(a, delta) for a in sp.pc] + [_margin(negated_ob, delta)]
+            cs = [(a if ob_only else _margin(a, delta)) for a in sp.pc] + [_margin(negated_ob, delta)]
         except Exception:  # noqa
             return None
         r, s = sp._solve("QF_NRA", cs, timeout_ms)
